@@ -324,7 +324,7 @@ func (c *caseT) knownCase(rec *ev.Rec, prop string) bool {
 	}
 	return check("where-over-summarize-shadow", shadowSumUnderWhere(c.tq.q, nil, false)) ||
 		check("summarize-shadow-requirement", hasShadowSummarize(c.tq.q)) ||
-		check("summarize-wholerow-inside", wholeRowInside(c.tq.q, true)) ||
+		check("summarize-wholerow-inside", wholeRowUnderWhere(c.tq.q, nil, false)) ||
 		check("summarize-wholerow-after-project", wholeRowFlips(c.tq.q, false)) ||
 		check("unique-index-empty-value", c.emptyUniqueRow()) ||
 		check("or-with-empty-range", orWithEmptyTerm(c.tq.q)) ||
@@ -434,5 +434,85 @@ func extendReusesRenamed(q *qnode) bool {
 		})
 	}
 	rec(q)
+	return found
+}
+
+// multiFixedLeading: some where restricts a column to two or more values
+// (`in` / `or` of equalities) of which at least two are stored in a table of
+// the query that has a composite index led by that column.
+func (c *caseT) multiFixedLeading() bool {
+	found := false
+	check := func(col string, vals map[string]bool) {
+		if len(vals) < 2 {
+			return
+		}
+		for name := range c.tq.q.tables() {
+			tb := c.d.table(name)
+			j := tb.colIndex(col)
+			if j < 0 {
+				continue
+			}
+			led := false
+			for _, ix := range tb.allIndexes() {
+				if len(ix) > 1 && ix[0] == col {
+					led = true
+				}
+			}
+			if !led {
+				continue
+			}
+			n := 0
+			for v := range vals {
+				for _, r := range tb.rows {
+					if r[j] == v {
+						n++
+						break
+					}
+				}
+			}
+			if n >= 2 {
+				found = true
+			}
+		}
+	}
+	var inExpr func(e *exprT)
+	inExpr = func(e *exprT) {
+		if e.op == "in" && e.args[0].op == "col" {
+			vals := map[string]bool{}
+			for _, a := range e.args[1:] {
+				vals[a.lit.packed] = true
+			}
+			check(e.args[0].col, vals)
+		}
+		if e.op == "or" {
+			vals := map[string]map[string]bool{}
+			for _, a := range e.args {
+				if a.op == "is" && a.args[0].op == "col" && a.args[1].op == "const" {
+					if vals[a.args[0].col] == nil {
+						vals[a.args[0].col] = map[string]bool{}
+					}
+					vals[a.args[0].col][a.args[1].lit.packed] = true
+				}
+			}
+			for col, v := range vals {
+				check(col, v)
+			}
+		}
+		for _, a := range e.args {
+			inExpr(a)
+		}
+	}
+	var rec func(n *qnode)
+	rec = func(n *qnode) {
+		n.walk(func(m *qnode) {
+			if m.op == "where" {
+				inExpr(m.expr)
+			}
+			if m.op == "view" {
+				rec(m.viewOf)
+			}
+		})
+	}
+	rec(c.tq.q)
 	return found
 }
